@@ -51,6 +51,7 @@ type c20Case struct {
 	Spec    []int64       `json:"spec,omitempty"`
 	Flavour int           `json:"flavour,omitempty"`
 	Workers int           `json:"workers,omitempty"`
+	Iters   int           `json:"iters,omitempty"` // storms (T = 6, 7; see c20storm.go)
 	Cr      []c20Creation `json:"cr,omitempty"`
 }
 
@@ -1282,9 +1283,10 @@ func c20Fixed() []c20Case {
 func init() {
 	props["C20"] = func(ctx *Ctx) {
 		ctx.Header("BCacheCorr")
-		ctx.Res.Rule = "case = float operation batch | constructor call | BucketPairs call | history of histogram creations under one root (sequential or from 2..6 goroutines; plain or cached reporter); non-trivial = constructor call without error, or a history in which at least two creations share their cache identity; distinct by case hash"
+		ctx.Res.Rule = "case = float operation batch | constructor call | BucketPairs call | history of histogram creations under one root (sequential or from 2..6 goroutines; plain or cached reporter) | storm of concurrent BucketPairs derivations / histogram creations with distinct sets (direct predicate only); non-trivial = constructor call without error, or a history in which at least two creations share their cache identity; distinct by case hash"
 		ctx.Note("value specifications contain no NaN (sort order unspecified) and never both +0 and -0; samples are finite (C03 covers the rest); every creation uses its own slice, never touched by the harness afterwards; float->int64 conversions whose result is used are kept in the range where Go defines them; bounds are compared with == of the element type (the sign of a float zero may change through a float-equal cache hit)")
 		ctx.Note("that BucketPairs / Histogram() leave the caller's slice unchanged is checked by the harness only: aliasing does not exist in the immutable model")
+		ctx.Note("storm/pairs and storm/reporter are uncontrolled stress streams (a fixed number of iterations, no timing verdicts): concurrent derivations of bucket pairs for DIFFERENT sets, directly and through a cached reporter that calls BucketPairs in AllocateHistogram; they sample interleavings and are judged by the direct predicate only (pairs = tiling of their own set, computed independently)")
 		one := func(c *c20Case) {
 			var in, obs []Ev
 			var fail, cls, key string
@@ -1333,6 +1335,20 @@ func init() {
 						key = hashOf(c)
 					}
 				}
+			case 6, 7:
+				// uncontrolled storms: direct predicate only, not sent to the model
+				if c.T == 6 {
+					run(func() ([]Ev, []Ev, string) { return nil, nil, c20RunPairsStorm(c) })
+					cls = "storm/pairs"
+				} else {
+					run(func() ([]Ev, []Ev, string) { return nil, nil, c20RunReporterStorm(c) })
+					cls = "storm/reporter"
+				}
+				ctx.Case(c, "", cls, hashOf(c))
+				if fail != "" {
+					ctx.Fail(map[int]string{6: "bucket_pairs_are_the_tiling_of_their_own_set", 7: "histogram_keeps_its_bounds"}[c.T], fail, c, nil)
+				}
+				return
 			default:
 				return
 			}
@@ -1382,6 +1398,15 @@ func init() {
 		}
 		for i := 0; i < nG; i++ {
 			c := c20GenCache(ctx.R, true)
+			one(&c)
+		}
+		// stress streams (a fixed number of iterations each; see c20storm.go)
+		for i, n := 0, ctx.N(8, 40); i < n; i++ {
+			c := c20GenStorm(ctx.R, 6)
+			one(&c)
+		}
+		for i, n := 0, ctx.N(5, 25); i < n; i++ {
+			c := c20GenStorm(ctx.R, 7)
 			one(&c)
 		}
 	}
